@@ -238,3 +238,53 @@ package vuego
 //@   ensures C12.nothing: err != nil && !failed(w) ==> out(w) == old(out(w))
 //@   ensures C12.reported: failed(w) && !old(failed(w)) ==> err != nil
 //@   ensures C12.complete: err == nil ==> failed(w) == old(failed(w))
+
+// ---- conditional chains (C03) ----
+
+//@ spec func isChainMember(n *html.Node) bool {
+//@   n.Type == html.ElementNode && (hasAttrUpTo(n.Attr, "v-else-if", len(n.Attr)) || hasAttrUpTo(n.Attr, "v-else", len(n.Attr))) }
+//@ spec func chainEnd(nodes []*html.Node, k int, last int) int decreases len(nodes) - k {
+//@   (k < 1 || k >= len(nodes)) ? last :
+//@     (nodes[k].Type != html.ElementNode ? chainEnd(nodes, k + 1, last) :
+//@       (isChainMember(nodes[k]) ? chainEnd(nodes, k + 1, k) : last)) }
+
+//@ lemma chainEndMono(nodes []*html.Node, k int, last int)
+//@   requires 1 <= k && last < k
+//@   decreases len(nodes) - k
+//@   induct chainEndMono(nodes, k + 1, last), chainEndMono(nodes, k + 1, k)
+//@   ensures C03.chainend.mono: chainEnd(nodes, k, last) >= last && chainEnd(nodes, k, last) < (len(nodes) > k ? len(nodes) : k)
+
+//@ func (e *ExprEvaluator) getProgram(expression) (prog, err)
+//@   modifies contents(e.programs)
+//@ func (e *ExprEvaluator) Eval(expression, env) (r, err)
+//@   modifies contents(e.programs)
+
+//@ func getCachedPath(expr) (r)
+//@   modifies contents(pathCache.m)
+//@ func (s *Stack) resolveStep(cur, p) (r)
+//@   trusted
+//@   modifies nothing
+//@ func (s *Stack) Resolve(expr) (v, ok)
+//@   modifies contents(pathCache.m)
+
+//@ func (v *Vue) evalConditionExpr(ctx, expr) (r, err)
+//@   modifies contents(v.exprEval.programs), contents(pathCache.m)
+//@ func (v *Vue) evalCondition(ctx, expr) (r, err)
+//@   modifies contents(v.exprEval.programs), contents(pathCache.m)
+
+//@ func (v *Vue) evalElseIfChain(ctx, node, nodes, depth) (res, skip, err)
+//@   requires C03.chain.head: len(nodes) >= 1 && nodes[0] == node
+//@   requires C03.chain.vif: hasAttrUpTo(node.Attr, "v-if", len(node.Attr))
+//@   requires nonnil.nodes: forall k int :: 0 <= k && k < len(nodes) ==> nodes[k] != nil
+//@   ensures C03.skip.range: err == nil ==> 0 <= skip && skip < len(nodes)
+//@   ensures C03.skip.consumed: err == nil ==> skip == old(chainEnd(nodes, 1, 0)) ||
+//@     (1 <= skip && skip <= old(chainEnd(nodes, 1, 0)) && old(isChainMember(nodes[skip])))
+//@   use chainEndMono(nodes, 1, 0)
+//@   loop 0 invariant C03.scan.true: 1 <= idx && idx <= len(nodes) && 0 <= lastChainNodeIdx && lastChainNodeIdx < idx &&
+//@     chainEnd(nodes, 1, 0) == chainEnd(nodes, idx, lastChainNodeIdx)
+//@   loop 0 use chainEndMono(nodes, idx, lastChainNodeIdx), chainEndMono(nodes, idx + 1, lastChainNodeIdx), chainEndMono(nodes, idx + 1, idx)
+//@   loop 1 invariant C03.scan.else: 1 <= idx && idx <= len(nodes) && 0 <= lastChainNodeIdx && lastChainNodeIdx < idx &&
+//@     chainEnd(nodes, 1, 0) == chainEnd(nodes, idx, lastChainNodeIdx)
+//@   loop 1 invariant C03.scan.frame: chainEnd(nodes, 1, 0) == old(chainEnd(nodes, 1, 0)) &&
+//@     forall k int :: 0 <= k && k < len(nodes) ==> nodes[k] != nil && isChainMember(nodes[k]) == old(isChainMember(nodes[k]))
+//@   loop 1 use chainEndMono(nodes, idx, lastChainNodeIdx), chainEndMono(nodes, idx + 1, lastChainNodeIdx), chainEndMono(nodes, idx + 1, idx)
